@@ -500,8 +500,98 @@ def alloc_contracts():
     return cs
 
 
+# ---- remaining _BlockBuilder emitters -------------------------------------------------------------------------------------
+
+def mentioned(st):
+    """variables a leaf statement reads or writes through (a bare Variable on the left of an assignment is a plain rebinding)"""
+    parts = list(st.parts) + list(st.kw.values())
+    if st.kind == 'Assign' and isinstance(parts[0], V):
+        parts = parts[1:]
+    if st.kind == 'If':
+        parts = parts[:1]
+    out = []
+    for p in parts:
+        for v in (p.vars() if isinstance(p, _Node) else []):
+            if v not in out:
+                out.append(v)
+    return out
+
+
+SHARED = {'a': 'lock_a', 'b': 'lock_b'}  # two shared arrays with distinct locks; 'p' is private
+
+
+class Emit(InProc, Contract):
+    """One emitter of _BlockBuilder on operands mentioning given subsets of {a, b, p}: every leaf statement that ends up in the block
+    tree sits inside `with lock` of ALL shared variables it mentions, no lock is taken twice on the way down."""
+    prop = PROP
+
+    def __init__(self, method, subsets):
+        self.method, self.subsets = method, tuple(tuple(s) for s in subsets)
+        self.fn = 'evaluable:_BlockBuilder.' + method
+        self.label = '|'.join(','.join(s) or '-' for s in self.subsets)
+        self.bounded = 'operands over three variables (a, b shared with distinct locks, p private): subsets %s' % self.label
+
+    def setup(self, cx):
+        concrete_format_hooks(cx)
+        S = State(counter=[0])
+        S.shared = {V(n): V(l) for n, l in SHARED.items()}
+
+        def new_var(ctx):
+            S.counter[0] += 1
+            return V('tmp%d' % S.counter[0])
+        S.parent = SObj('_BlockTreeBuilder', attrs=dict(_shared_arrays=S.shared, new_var=new_var))
+        S.block = Blk()
+        S.globals = builder_globals(S)
+        S.operands = [E('operand', [V(n) for n in sub]) for sub in self.subsets]
+        return S
+
+    def body(self, cx, S, call):
+        S.call = call
+        me = cx.interp.call(S.globals['_BlockBuilder'], [S.parent, S.block], {})  # the real __init__
+        S.me = me
+        return call(self.fn, me, *S.operands)
+
+    def raises(self, cx, S, e):
+        return False
+
+    def ensures(self, cx, S, result):
+        ok_locks, ok_once, n = True, True, 0
+        for st, held in leaves(S.block):
+            if not isinstance(st, St):
+                return [(c, z3.BoolVal(False)) for c in ('statement-emitted', 'shared-variables-only-under-their-locks', 'no-lock-taken-twice')]
+            n += 1
+            need = [S.shared[v] for v in mentioned(st) if v in S.shared]
+            if any(l not in held for l in need):
+                ok_locks = False
+            if len(set(held)) != len(held) or any(not isinstance(h, V) for h in held):
+                ok_once = False
+        out = [('statement-emitted', z3.BoolVal(n >= 1)), ('shared-variables-only-under-their-locks', z3.BoolVal(ok_locks)), ('no-lock-taken-twice', z3.BoolVal(ok_once))]
+        if self.method == 'eval':
+            fresh = isinstance(result, V) and result not in S.shared and result.name not in ('a', 'b', 'p') and any(st.kind == 'Assign' and st.parts[0] == result and st.parts[1] is S.operands[0] for st, _ in leaves(S.block))
+            out.append(('value-bound-to-a-new-private-variable', z3.BoolVal(bool(fresh))))
+        else:
+            used = set(v for st, _ in leaves(S.block) for v in mentioned(st))
+            out.append(('statement-uses-every-operand', z3.BoolVal(all(V(n) in used for sub in self.subsets for n in sub))))
+        return out
+
+    def replay(self, ob):
+        return _native('run_emit(%r, %r, %r)' % (self.method, self.subsets, ob.clause))
+
+
+def emit_contracts():
+    names = ('a', 'b', 'p')
+    subsets = [tuple(c) for r in range(0, 4) for c in itertools.combinations(names, r)]
+    cs = []
+    for m in ('array_fill_zeros', 'eval'):
+        cs += [Emit(m, (s,)) for s in subsets]
+    for m in ('array_copy', 'array_iadd', 'array_imul', 'assert_equal'):
+        cs += [Emit(m, (s1, s2)) for s1 in subsets for s2 in subsets]
+    cs += [Emit('array_add_at', (s1, s2, s3)) for s1 in subsets for s2 in subsets for s3 in subsets if len(s1) + len(s2) + len(s3) <= 3]
+    return cs
+
+
 def contracts():
-    return alloc_contracts()
+    return alloc_contracts() + emit_contracts()
 
 
 def extra_obligations(tier, seed):
